@@ -2,8 +2,8 @@ package eng
 
 import (
 	"crypto/sha256"
-	"encoding/json"
 	"encoding/hex"
+	"encoding/json"
 	"fmt"
 	"math/big"
 	"math/rand"
@@ -34,10 +34,10 @@ func init() {
 }
 
 type oFeeder struct {
-	id, token              uint64
-	start, interval, end   uint64
-	startRound             uint64
-	dec                    int32
+	id, token            uint64
+	start, interval, end uint64
+	startRound           uint64
+	dec                  int32
 }
 
 type oSub struct {
@@ -49,17 +49,17 @@ type oSub struct {
 }
 
 type oRound struct {
-	feeder  uint64
-	based   uint64
-	id      uint64
-	open    bool
-	final   bool
-	kind    string
-	subs    []oSub
-	seen    map[string]bool // validator|source|detID already reported
-	admits  map[string]int  // validator -> admitted txs
-	total   *big.Int
-	powers  map[string]*big.Int
+	feeder uint64
+	based  uint64
+	id     uint64
+	open   bool
+	final  bool
+	kind   string
+	subs   []oSub
+	seen   map[string]bool // validator|source|detID already reported
+	admits map[string]int  // validator -> admitted txs
+	total  *big.Int
+	powers map[string]*big.Int
 }
 
 type oracleRun struct {
@@ -78,7 +78,16 @@ type oracleRun struct {
 	// a consequence of that one defect and is reported under its own signature.
 	tainted map[uint64]string
 	// noTaintClasses: do not generate the two input classes that trigger the recorded memory-mutation findings
-	noTaintClasses   bool
+	noTaintClasses bool
+	// silent: per-block probability (percent) that a validator does not report; drift: see honestPrice
+	silent           int
+	drift            bool
+	scatter          bool
+	scatterN         uint64
+	countedAt        map[string]int64
+	repeatKeys       map[string]bool
+	seenDets         map[string][]uint64
+	repeatReports    int
 	firstTaintHeight int64
 }
 
@@ -110,11 +119,21 @@ func oracleConfig(r *rand.Rand) (sim.Config, map[uint64]*oFeeder, int) {
 		}
 	}
 	cfg := sim.DefaultConfig(len(stakes), stakes)
-	maxNonce := 1 + r.Intn(3)
+	maxNonce := []int{1, 2, 3, 3, 4, 5}[r.Intn(6)]
 	cfg.OracleMaxNonce = int32(maxNonce)
 	cfg.Assets = cfg.Assets[:2]
 	cfg.Assets = append(cfg.Assets, sim.AssetCfg{Address: "0xc02aaa39b223fe8d0a0e5c4f27ead9083c756cc2", LzChainID: 101, Decimals: 18, HasOracle: true})
 	feeders := map[uint64]*oFeeder{}
+	// half of the histories list the feeders in another order than the tokens (feeder id != token id)
+	order := []int{0, 1, 2}
+	if r.Intn(2) == 0 {
+		order = r.Perm(3)
+	}
+	cfg.OracleFeederOrder = order
+	feederOf := map[int]uint64{}
+	for k, i := range order {
+		feederOf[i] = uint64(k + 1)
+	}
 	for i := range cfg.Assets {
 		cfg.Assets[i].Price = "" // no genesis price: round ids start at StartRoundID = 1
 		cfg.Assets[i].PriceDec = []int32{0, 2, 8}[i]
@@ -129,7 +148,7 @@ func oracleConfig(r *rand.Rand) (sim.Config, map[uint64]*oFeeder, int) {
 			end = st + k*iv + uint64(maxNonce) + uint64(r.Intn(int(iv)-maxNonce))
 		}
 		cfg.Assets[i].EndBlock = end
-		feeders[uint64(i+1)] = &oFeeder{id: uint64(i + 1), token: uint64(i + 1), start: st, interval: iv, end: end, startRound: 1, dec: cfg.Assets[i].PriceDec}
+		feeders[feederOf[i]] = &oFeeder{id: feederOf[i], token: uint64(i + 1), start: st, interval: iv, end: end, startRound: 1, dec: cfg.Assets[i].PriceDec}
 	}
 	return cfg, feeders, maxNonce
 }
@@ -232,10 +251,45 @@ func trunc80(s string) string {
 // ---------------------------------------------------------------------------------------------------------
 
 func (o *oracleRun) honestPrice(f *oFeeder, based uint64) (string, string) {
-	h := sha256.Sum256([]byte(fmt.Sprintf("%s-%d-%d", o.hist, f.id, based)))
+	det := 1000 + based
+	if o.scatter {
+		// every report names a source round of its own but carries the same value: no ⟨source, round, value⟩ ever
+		// gathers more than one validator
+		o.scatterN++
+		h := sha256.Sum256([]byte(fmt.Sprintf("%s-%d-%d", o.hist, f.id, based)))
+		v := new(big.Int).SetBytes(h[:6])
+		v.Add(v, big.NewInt(1))
+		return v.String(), fmt.Sprint(500000 + based*1000 + o.scatterN%1000)
+	}
+	if o.drift {
+		defer func() {
+			if o.seenDets == nil {
+				o.seenDets = map[string][]uint64{}
+			}
+			key := fmt.Sprintf("%d/%d", f.id, based)
+			for _, d := range o.seenDets[key] {
+				if d == det {
+					return
+				}
+			}
+			o.seenDets[key] = append(o.seenDets[key], det)
+		}()
+		// a lagging validator reports a source round that others reported in an earlier block of this window
+		if prev := o.seenDets[fmt.Sprintf("%d/%d", f.id, based)]; len(prev) > 0 && o.r.Intn(2) == 0 {
+			det = prev[o.r.Intn(len(prev))]
+			h := sha256.Sum256([]byte(fmt.Sprintf("%s-%d-%d", o.hist, f.id, det)))
+			v := new(big.Int).SetBytes(h[:6])
+			v.Add(v, big.NewInt(1))
+			return v.String(), fmt.Sprint(det)
+		}
+		// the source's own round advances every second block: validators that report in different blocks of a window
+		// report different source rounds, and a validator that reports again reports the newer one
+		det = 100000 + based*16 + ((uint64(o.w.C.Height())-based)/2)%16
+	}
+	h := sha256.Sum256([]byte(fmt.Sprintf("%s-%d-%d", o.hist, f.id, det)))
 	v := new(big.Int).SetBytes(h[:6])
 	v.Add(v, big.NewInt(1))
-	return v.String(), fmt.Sprint(1000 + based)
+	return v.String(), fmt.Sprint(det)
 }
 
 func (o *oracleRun) ts(offset time.Duration) string {
@@ -269,6 +323,9 @@ func (o *oracleRun) nextNonce(raw sim.Raw, k *sim.ConsKey, feeder uint64) int32 
 
 func (o *oracleRun) run(nBlocks int) {
 	w := o.w
+	o.silent = []int{35, 35, 60, 80}[o.r.Intn(4)]
+	o.drift = o.r.Intn(3) == 0
+	o.scatter = !o.drift && o.r.Intn(4) == 0
 	if !w.Start() {
 		return
 	}
@@ -302,10 +359,13 @@ func (o *oracleRun) run(nBlocks int) {
 			order := o.r.Perm(len(o.vals))
 			for _, vi := range order {
 				k := o.vals[vi]
-				if o.r.Intn(100) < 35 {
+				if o.r.Intn(100) < o.silent {
 					continue // this validator stays silent in this block
 				}
 				nonce := o.nextNonce(w.Last.Raw, k, fid)
+				if o.drift || o.scatter {
+					price, det = o.honestPrice(f, based)
+				}
 				pc := priceCase{class: "honest", key: k, sigValid: true}
 				msg := o.mkMsg(k, f, based, nonce, price, det, f.dec, 0)
 				switch x := o.r.Intn(100); {
@@ -421,6 +481,11 @@ func (o *oracleRun) run(nBlocks int) {
 			return
 		}
 		o.afterEnd(pre, st)
+		for fid, based := range oraclekeeper.VerifOpenRounds() {
+			if o.repeatKeys[fmt.Sprintf("%d/%d", fid, based)] {
+				o.repeatReports++ // a restart point at which an open round holds two reports of one validator from two blocks
+			}
+		}
 		dt := w.Dt
 		if o.r.Intn(10) == 0 {
 			dt = 30 * time.Second
@@ -688,6 +753,20 @@ func (o *oracleRun) judgeTx(mode string, pc priceCase, st *ops.Step, pre, post *
 	}
 	s.Eval("outcome")
 	s.Case(fmt.Sprintf("%s|%s|%s|%s", mode, sender, pc.class, outcome))
+	if outcome == "counted" && !finalised {
+		// workload coverage: the same validator counted in two different blocks of one still-open round
+		key := fmt.Sprintf("%s/%d/%d", pc.key.Name, pc.msgs[0].FeederID, pc.msgs[0].BasedBlock)
+		if o.countedAt == nil {
+			o.countedAt = map[string]int64{}
+		}
+		if h0, ok := o.countedAt[key]; ok && h0 != st.Height {
+			if o.repeatKeys == nil {
+				o.repeatKeys = map[string]bool{}
+			}
+			o.repeatKeys[fmt.Sprintf("%d/%d", pc.msgs[0].FeederID, pc.msgs[0].BasedBlock)] = true
+		}
+		o.countedAt[key] = st.Height
+	}
 	diffs := sim.DiffRaw(pre.Raw, post.Raw, 6)
 
 	switch outcome {
